@@ -724,10 +724,12 @@ def parse_file(stream: IO[str], context: ParseContext) -> List[Dict]:
     try:
         data, line_numbers = yaml_safe_load_with_line_numbers(stream, str(path))
     except YAMLError as y:
+        # not every YAMLError knows where it happened (e.g. yaml.reader.ReaderError)
+        problem_mark = getattr(y, "problem_mark", None)
         raise exc.DataGenYamlSyntaxError(
             str(y),
             str(path),
-            y.problem_mark.line + 1,
+            problem_mark.line + 1 if problem_mark else None,
         )
     context.line_numbers.update(line_numbers)
 
